@@ -51,6 +51,6 @@ meta = {"property": pid, "name": name, "breaks": pid,
                       "repo_baseline_with_patch": res["baseline_patched"]},
         "ran": ["tools/confirm_seed.py (demo clean/patched, tools/baseline.py with patch)",
                 "tools/seedtest.py seeded/%s/patch.diff %s" % (name, " ".join(checks))],
-        "detected_by": det}
+        "detected_by": det, "first_detected_by": det}
 json.dump(meta, open(os.path.join(out, "meta.json"), "w"), indent=1)
 print(json.dumps(det, indent=1))
